@@ -272,9 +272,18 @@ def extremes(chk, seed):
                 objs = {n: mk() for n, mk in leaves.items()}
                 obs = build(t, objs)
                 before = batch.clone()
-                got = obs.apply(st, batch).detach().numpy().astype(np.float64)
+                first = obs.apply(st, batch)
+                got = first.detach().numpy().astype(np.float64)
                 want = value(t, vals)
                 chk.evaluations += 1
+                if rows == 7:
+                    # the caller still holds the first result when it evaluates the same object on another batch of
+                    # the same shape (as statistics() does draw after draw): what it holds keeps its value
+                    other = torch.randint(0, 2, (rows, 3), generator=g).to(torch.double)
+                    obs.apply(st, other)
+                    if not np.array_equal(first.detach().numpy().astype(np.float64), got):
+                        chk.violation("extremes:earlier-result-overwritten", dict(state=kind, expression=repr(t)))
+                        break
                 scale = max(1.0, float(np.max(np.abs(want))))
                 if got.shape != want.shape or np.max(np.abs(got - want)) > 1e-12 * scale or not torch.equal(batch, before):
                     w = int(np.argmax(np.abs(got - want))) if got.shape == want.shape else -1
